@@ -296,12 +296,6 @@ func runRFaultOnce(ws *WSeg, prog []ROp, fault *ReadFault, maxReadsPerCall int, 
 	}
 	out.reads = ra.Calls() - base
 	out.trace = sched.Trace
-	// "later calls return promptly": a transient fault costs the program some
-	// retries and the re-read with fresh objects (about as many reads again), not
-	// a multiple of everything it reads when nothing fails
-	if out.fail == nil && out.hung == nil && fault != nil && fault.Count > 0 && maxReadsPerCall > 0 && out.reads > 6*maxReadsPerCall+200 {
-		out.fail = &Fail{Prop: "C19", Oracle: "read-fault", Kind: "liveness", Site: "program", Detail: fmt.Sprintf("%s: after the fault ended the program (plus its repetition with fresh objects) needed %d storage reads; without any fault it needs %d", label, out.reads, maxReadsPerCall-8)}
-	}
 	return out
 }
 
